@@ -412,3 +412,80 @@ def threads(ctx, label, make_shared, fresh, funcs, lock_attr, warm, jobs, case, 
             n += 1
     ctx.count("thread_schedules_" + label, runs)
     return True
+
+
+# ------------------------------------------------------------------------------------------------ C04: offsets as WRITTEN in a VTIMEZONE
+STATED_STD = [-12600, -34200, -16200, -9000, -17762, -9015, -3599, -45, 20700, 34200, 12345, -12345, -37800, 0, 3600, -18000]
+
+
+def ical_stated_offsets(ctx):
+    """C04, last clause, for tzical zones: the offset (and abbreviation) reported for a converted datetime are those WRITTEN in the
+    definition for the component in force.  Definitions with negative non-whole-hour and with-seconds TZOFFSETFROM / TZOFFSETTO values;
+    the expected offset is the generator's own integer (never read back through tzical._parse_offset), the component in force is
+    decided from the generator's rules and those integers."""
+    from props import c17
+    from dateutil import tz
+    import warnings
+    rng = ctx.subrng("ical-stated-offsets")
+    for k in range(ctx.budget(16, 300)):
+        spec = c17.gen_spec(rng)
+        std = STATED_STD[k % len(STATED_STD)] if k < 2 * len(STATED_STD) else rng.choice(STATED_STD) + rng.choice([0, 0, 1, -1, 60, -61])
+        save = spec["dst"] - spec["std"]
+        spec = dict(spec, std=std, dst=std + save)
+        text = c17.vtimezone(spec, rng if k % 2 else None, order=k % 2)
+        stated = {"SSS": std, "DDD": std + save}
+        try:
+            with warnings.catch_warnings():
+                warnings.simplefilter("ignore")
+                z = c17.load(text).get()
+        except Exception as ex:
+            ctx.case(("ical-stated", text))
+            ctx.violation("tzical rejects a well-formed VTIMEZONE with offsets %s / %s: %s" % (c17.off4(std), c17.off4(std + save), type(ex).__name__),
+                          {"kind": "ical-stated-offset", "phase": "load", "std": std, "dst": std + save}, text)
+            continue
+        ctx.count("ical_stated_offset_zones")
+        if std < 0 and std % 3600:
+            ctx.count("ical_stated_offset_zones_negative_non_whole_hour")
+        if std % 60:
+            ctx.count("ical_stated_offset_zones_with_seconds")
+        ok = True
+        for y in (2016, 2021):
+            a, b = c17.transitions_utc(spec, y)           # UTC instants of the start and end of daylight time, from the generator's integers
+            lo, hi = min(a, b), max(a, b)
+            probes = [a + datetime.timedelta(seconds=d) for d in (-86400, -1, 0, 1, 3600, 86400)] + \
+                     [b + datetime.timedelta(seconds=d) for d in (-86400, -1, 0, 1, 3600, 86400)] + \
+                     [lo + (hi - lo) / 2, datetime.datetime(y, 1, 15, 12), datetime.datetime(y, 7, 15, 12)]
+            for u in probes:
+                u = u.replace(microsecond=0)
+                indst = (a <= u < b) if a < b else not (b <= u < a)
+                want_off = stated["DDD"] if indst else stated["SSS"]
+                want_name = "DDD" if indst else "SSS"
+                ctx.case(("ical-stated", std, save, y, u.isoformat()), nontrivial=True)
+                with warnings.catch_warnings():
+                    warnings.simplefilter("ignore")
+                    loc = u.replace(tzinfo=tz.UTC).astimezone(z)
+                got_off = loc.utcoffset().total_seconds()
+                wall_ok = loc.replace(tzinfo=None) == u + datetime.timedelta(seconds=want_off)
+                if got_off != want_off or loc.tzname() != want_name or not wall_ok:
+                    ctx.violation("tzical zone at %sZ reports offset %+d s (%s), wall %s; the definition states TZOFFSETTO:%s (%+d s, %s) for the "
+                                  "component in force" % (u.isoformat(), got_off, loc.tzname(), loc.replace(tzinfo=None).isoformat(),
+                                                          c17.off4(want_off), want_off, want_name),
+                                  {"kind": "ical-stated-offset", "phase": "lookup", "std": std, "dst": std + save, "utc": u.isoformat(),
+                                   "expected_offset": want_off, "expected_abbr": want_name}, text)
+                    ok = False
+                    break
+            if not ok:
+                break
+
+
+def replay_ical_stated(payload):
+    from props import c17
+    from dateutil import tz
+    c = payload["violation"]["case"]
+    text = payload["violation"]["detail"]
+    print(payload["violation"]["what"])
+    z = c17.load(text).get()
+    u = datetime.datetime.fromisoformat(c["utc"])
+    loc = u.replace(tzinfo=tz.UTC).astimezone(z)
+    print("now: offset %s abbr %s; stated %+d s %s" % (loc.utcoffset(), loc.tzname(), c["expected_offset"], c["expected_abbr"]))
+    return loc.utcoffset().total_seconds() == c["expected_offset"] and loc.tzname() == c["expected_abbr"]
